@@ -75,12 +75,18 @@ HookSeen(r, j, rep, c, new) ==
     \E k \in Idx(r) : /\ k > PrevLine(r, j) /\ k < j /\ Lines[k].ev \in {"track", "untrack"}
                       /\ Lines[k].r = rep /\ Lines[k].c = c
                       /\ IF new = Absent THEN Lines[k].ev = "untrack" ELSE Lines[k].ev = "track" /\ Lines[k].v = new
+\* the known go-ds-crdt defect re-exposes a record this replica itself held (and handed to its tracker)
+\* before it was removed: a CID that was absent re-enters with a value already tracked here earlier
+StaleResurfaced(r, j, rep, c, old, new) ==
+    /\ old = Absent /\ new # Absent
+    /\ \E k \in Idx(r) : k < PrevLine(r, j) /\ Lines[k].ev = "track" /\ Lines[k].r = rep /\ Lines[k].c = c /\ Lines[k].v = new
 HookBad(r) ==
-              {x \in [line : SyncIdx(r), rep : REPS, c : CIDS, shape : Shapes] :
+              {x \in [line : SyncIdx(r), rep : REPS, c : CIDS, shape : Shapes, stale : BOOLEAN] :
                   /\ x.rep \in RepsAt(x.line) /\ x.shape = Shape(r, x.line, x.c)
                   /\ WellFormedPins(ObsOf(x.line, x.rep).pins)
                   /\ LET new == ObsPins(ObsOf(x.line, x.rep).pins)[x.c] old == PrevPins(r, x.line, x.rep)[x.c]
-                     IN new # old /\ ~HookSeen(r, x.line, x.rep, x.c, new)}
+                     IN /\ new # old /\ ~HookSeen(r, x.line, x.rep, x.c, new)
+                        /\ x.stale = StaleResurfaced(r, x.line, x.rep, x.c, old, new)}
 
 \* a replica that has never been connected shows exactly its own accepted operations, in order
 RECURSIVE OwnSeq(_, _)
